@@ -844,20 +844,23 @@ class BzrFastExporter:
 
             # Renaming a directory implies all children must be renamed.
             # Note: changes_from() doesn't handle this
-            if change.kind == ("directory", "directory"):
-                for p, e in tree_old.iter_entries_by_dir(
-                    specific_files=[change.path[0]]
-                ):
-                    if e.kind == "directory" and self.plain_format:
-                        continue
-                    old_child_path = osutils.pathjoin(change.path[0], p)
-                    new_child_path = osutils.pathjoin(change.path[1], p)
-                    must_be_renamed[old_child_path] = new_child_path
+            # (in a rich stream the directory's own rename carries them)
+            if change.kind == ("directory", "directory") and self.plain_format:
+                for _dir, entries in tree_old.walkdirs(prefix=change.path[0]):
+                    for old_child_path, _name, kind, _st, _vkind in entries:
+                        if kind == "directory":
+                            continue
+                        new_child_path = (
+                            change.path[1] + old_child_path[len(change.path[0]) :]
+                        )
+                        must_be_renamed[old_child_path] = new_child_path
 
         # Add children not already renamed
         if must_be_renamed:
             renamed_already = set(old_to_new.keys())
-            still_to_be_renamed = set(must_be_renamed.keys()) - renamed_already
+            still_to_be_renamed = (
+                set(must_be_renamed.keys()) - renamed_already - deleted_paths
+            )
             for old_child_path in sorted(still_to_be_renamed):
                 new_child_path = must_be_renamed[old_child_path]
                 if self.verbose:
